@@ -34,11 +34,14 @@ import Lattigo.Props.C04
 
   REMAINING GAP (stated, not proved here):
   * lazy kernels (words in `[0, 2q)` …) are not connected to `absRow` beyond the final `% q`
-    (their word-level congruences are in `C01Words`);
-  * the word-level automorphism (`AutomorphismNTT` and its index table, `Proofs/GaloisNTTIndex.lean`) and
-    `MulScalar*` are not connected to `rowAut` / `rowScale`;
-  * the conjugate-invariant carrier (`RQ` with `ci = true`, `ciRowMul`) is not covered;
+    (their word-level congruences and ranges are in `C01Words`; the lazy NTTs in `C01NTT` / `C01QP §3`);
+  * `MulScalar*` / `AddScalar*` are not connected to `rowScale` by a theorem (tied: driver op `ringop`; probed
+    against big integers: `ringop_ref`);
   * `RPoly.crt`/`toInts` (CRT reconstruction) are not related to the ring structure here.
+  CLOSED ELSEWHERE since this file was written: the NTT-domain automorphism of the standard ring is connected to
+  `rowAut` by `C01Aut.autNTT_spec` (conjugate-invariant index table: `C11.nttIndex_perm_ci`); the conjugate-invariant
+  carrier (`RQ` with `ci = true`, `ciRowMul`) is the subring of `WFPoly qs (2n)` fixed by `X ↦ X⁻¹`
+  (`Proofs/RLWECI.lean`, C03), and its coefficient-domain automorphism is `C01QP.aut_ci_restriction / aut_ci_closed`.
 -/
 namespace Lattigo.Props.C01Ring
 open Lattigo Lattigo.Gen Lattigo.NTT Lattigo.RPolyRing Lattigo.RPolyRefine Polynomial
